@@ -62,7 +62,10 @@ class Conf:
 class CrashRunner(SimulationRunner):
     def __init__(self, conf, uid_base, log_fd, faults):
         super().__init__(read_command_line_args=False)
-        self.update_progress_function_style = None
+        if getattr(conf, "progress", None) == "file":
+            self.progress_output_type = 'file'      # default text bar, written to files
+        else:
+            self.update_progress_function_style = None
         self.conf = conf
         self.rep_max = conf.rep_max
         for k, v in conf.fixed.items():
@@ -138,6 +141,11 @@ class TearingFile:
                 self.f.flush()
                 os.write(st["log_fd"], ("crash write %d at %d of %s\n" % (
                     self.index, self.written + len(part), self.path)).encode())
+                if st["faults"].get("mode") == "raise" and not st.get("raised"):
+                    # the interruption arrives as an exception (Ctrl-C): handlers and
+                    # finally blocks of the library run before the process ends
+                    st["raised"] = True
+                    raise KeyboardInterrupt("injected while writing a results file")
                 os._exit(137)
         self.written += len(raw)
         st["sizes"][self.index] = self.written
@@ -227,7 +235,17 @@ def child_main(conf, wd, faults, uid_base, tag, override=None):
         interrupted = None
         try:
             r.simulate()
-        except (KeyboardInterrupt, RuntimeError, MemoryError) as e:
+        except KeyboardInterrupt:
+            if state.get("raised"):
+                os.write(log_fd, b"exit after KeyboardInterrupt in a write\n")
+                os._exit(137)
+            if not faults.get("raised"):
+                raise
+            e = KeyboardInterrupt()
+            interrupted = {"exc": "KeyboardInterrupt",
+                           "durable": {str(k): v for k, v in durable_state(wd, 0).items()}}
+            r.simulate()
+        except (RuntimeError, MemoryError) as e:
             if not faults.get("raised"):
                 raise
             # the user is still in the same session: look at what is on disk,
@@ -347,6 +365,8 @@ def gen_conf(rng, big):
     c.stop_at = None
     if not big and rng.random() < 0.3:
         c.stop_at = int(rng.integers(1, c.rep_max + 2))
+    # progress output: switched off, or the default text bar written to files
+    c.progress = "file" if (not big and rng.random() < 0.2) else None
     # some repetitions raise SkipThisOne (never counted, never saved)
     c.skip_p = float(rng.choice([0.0, 0.0, 0.25, 0.45])) if not big else 0.0
     return c
@@ -357,7 +377,8 @@ def conf_tag(c):
             "rep_max": c.rep_max, "delete_partial": c.delete_partial,
             "results_name": c.results_name, "partial_folder": c.partial_folder,
             "virtual_clock_step": getattr(c, "clock_step", 0),
-            "stop_at": getattr(c, "stop_at", None), "skip_probability": getattr(c, "skip_p", 0.0)}
+            "stop_at": getattr(c, "stop_at", None), "skip_probability": getattr(c, "skip_p", 0.0),
+            "progress_output": getattr(c, "progress", None)}
 
 
 def want_reps(c):
@@ -538,7 +559,13 @@ def case_crash(ctx, rng, idx):
         ctx.tally("configurations-enumerated-completely")
     for kind, point in pts:
         wd = fresh_dir("c07_%d_run" % idx)
-        st = run_child(conf, wd, {kind: point}, 0, "first")
+        fl = {kind: point}
+        if kind == "write" and rng.random() < 0.35:
+            fl["mode"] = "raise"          # Ctrl-C style: an exception inside the write call
+            kind_tag = "write-raise"
+        else:
+            kind_tag = kind
+        st = run_child(conf, wd, fl, 0, "first")
         if st == 0:
             ctx.tally("failpoint-not-reached")       # e.g. a write shorter than expected
             shutil.rmtree(wd, ignore_errors=True)
@@ -549,8 +576,8 @@ def case_crash(ctx, rng, idx):
         if st != 137:
             shutil.rmtree(wd, ignore_errors=True)
             continue
-        ctx.tally("crash-points:" + kind)
-        ok = decide(ctx, conf, wd, tag, kind, point)
+        ctx.tally("crash-points:" + kind_tag)
+        ok = decide(ctx, conf, wd, tag, kind_tag, point)
         pos = "save" if kind != "rep" else ("first-rep" if point[0] == 1 else "later-rep")
         ctx.sig(kind, "big" if big else conf.rep_max, bool(conf.clock_step),
                 conf.results_name.split(".")[-1],
